@@ -269,6 +269,24 @@ def _build(b):
             want = b"\x07\x00" + b"\x0a" + _marker([b"\x02", 1, b""]) + b"\x02\x00" + (6).to_bytes(2, "little") + (6 + len(m1)).to_bytes(2, "little") + m1 + m2
             b.expect("multi-request", "Multiple Service Packet frame (message router instance 1, count, offsets, services)", MS, req(ms), connected_frame(want), norm=_mask_timeout)
 
+    # ---------------------------------------------------------------- a request is assembled once: building it again gives the same frame
+    for label, name, args in (("Read Tag", "ReadTagRequestPacket", (7, "T", 3, TI_DINT, 11, False)), ("Write Tag", "WriteTagRequestPacket", (7, "T", 2, TI_DINT, 12, False, V8)),
+                              ("Read Tag Fragmented", "ReadTagFragmentedRequestPacket", (7, "T", 3, TI_DINT, 11, False, 0x10)), ("Write Tag Fragmented", "WriteTagFragmentedRequestPacket", (7, "T", 2, TI_DINT, 12, False, 4, V8[:4])),
+                              ("Read-Modify-Write", "ReadModifyWriteRequestPacket", (7, "T", TI_DINT, 13, False))):
+        ci_ = b.cls(PL, name)
+        k_, o_ = b.new(PL, name, *args)
+        if k_ != "return":
+            continue  # (construction is judged by the class's own witnesses)
+        if name == "ReadModifyWriteRequestPacket":
+            b.call(o_, "set_bit", 3, True, 0)
+        first, second, third = req(o_), req(o_), b.call(o_, "build_message")
+        if "unknown" in (first[0], second[0], third[0]):
+            b.rec("build-twice", f"{label}: built twice", ci_, "unknown", False, "", f"{[x[1] for x in (first, second, third) if x[0] == 'unknown'][0]}")
+        else:
+            same = first[0] == "return" and second == first and third[0] == "return" and isinstance(first[1], (bytes, bytearray)) and bytes(first[1]).endswith(bytes(third[1]))
+            b.rec("build-twice", f"{label}: built twice", ci_, "check", same, "the same frame both times (sequence, service, path and data once)",
+                  f"first {first[0]} {len(first[1]) if isinstance(first[1], (bytes, bytearray)) else first[1]} bytes, second {second[0]} {len(second[1]) if isinstance(second[1], (bytes, bytearray)) else second[1]} bytes: building a request again changes its frame (the message is assembled more than once)")
+
     # ---------------------------------------------------------------- responses
     RR, RFR, WR, MR = (b.cls(PL, n) for n in ("ReadTagResponsePacket", "ReadTagFragmentedResponsePacket", "WriteTagResponsePacket", "MultiServiceResponsePacket"))
     payload = b"\xc4\x00" + bytes(range(12))
@@ -322,6 +340,49 @@ def _build(b):
                 b.rec("fragment-response", "failed fragment: parse_value()", RFR, "unknown" if k2 == "unknown" else "check", False, "no value", f"{k2} {_}")
 
         response("fragment-response", "Read Tag Fragmented reply, status 0x04", RFR, PL, "ReadTagFragmentedResponsePacket", r2, connected_reply(0xD2, 4, b""), {"service_status": 4}, False, "<status 4> - <ext@48>", invalid_frag)
+    # ---- replies cut at every length: constructing the response never raises; a reply too short to hold its general status is
+    # not valid; whenever a service status was decoded the reply data was sliced out too, and for a fragment whose status says
+    # success / more-to-come the value bytes are there (the driver's fragment loop measures them)
+    def cut_replies(label, ci, name, request, raw, first_valid, frag=False, complete_valid=True):
+        bad, unknown = [], None
+        for n in range(0, len(raw) + 1):
+            k_, o = b.new(PL, name, request, raw[:n])
+            if k_ == "unknown":
+                unknown = f"cut at {n}: {o}"
+                break
+            if k_ != "return":
+                bad.append(f"cut at {n}: constructing the response gives {k_} {o}")
+                continue
+            d = o.__dict__
+            kv, valid = b.call(o, "is_valid")
+            if kv == "unknown":
+                unknown = f"cut at {n}: is_valid(): {valid}"
+                break
+            if kv != "return":
+                bad.append(f"cut at {n}: is_valid() gives {kv} {valid}")
+                continue
+            if valid and n < first_valid:
+                bad.append(f"cut at {n} (before the general status at {first_valid - 1}): reported valid with status {d.get('service_status')!r}")
+            if bool(valid) is not complete_valid and n >= len(raw):
+                bad.append(f"the complete reply is {'not ' if complete_valid else ''}valid")
+            if d.get("service_status") is not None and d.get("data") is None:
+                bad.append(f"cut at {n}: service status {d.get('service_status')!r} decoded but no reply data")
+            if frag and (valid or d.get("service_status") == 6) and d.get("value_bytes") is None:
+                bad.append(f"cut at {n}: a fragment that is valid or says 'more to come' (status {d.get('service_status')!r}) without value bytes (the fragment loop measures them)")
+        if unknown is not None:
+            b.rec("cut-replies", label, ci, "unknown", False, "", unknown)
+        else:
+            b.rec("cut-replies", label, ci, "check", not bad, "every cut classified (valid only with its status word; status decoded => data present)", "; ".join(bad[:3]))
+
+    if r1 is not None:
+        cut_replies("Read Tag reply cut at every length", RR, "ReadTagResponsePacket", r1, connected_reply(0xCC, 0, payload), 49)
+    if r2 is not None:
+        cut_replies("Read Tag Fragmented reply (status 6) cut at every length", RFR, "ReadTagFragmentedResponsePacket", r2, connected_reply(0xD2, 6, payload), 49, frag=True)
+        cut_replies("Read Tag Fragmented reply (status 0, structure) cut at every length", RFR, "ReadTagFragmentedResponsePacket", r2, connected_reply(0xD2, 0, b"\xa0\x02\xcd\xab" + bytes(range(8))), 49, frag=True)
+        cut_replies("Read Tag Fragmented reply (status 6 under an encapsulation error) cut at every length", RFR, "ReadTagFragmentedResponsePacket", r2, connected_reply(0xD2, 6, payload, enc_status=0x65), 49, frag=True, complete_valid=False)
+        cut_replies("reply with an unknown reply-service code (status 6) cut at every length", RFR, "ReadTagFragmentedResponsePacket", r2, connected_reply(0x7F, 6, payload), 49, frag=True, complete_valid=False)
+    if w1 is not None:
+        cut_replies("Write Tag reply cut at every length", WR, "WriteTagResponsePacket", w1, connected_reply(0xCD, 0, b""), 49)
     if w1 is not None:
         response("write-response", "Write Tag reply, status 0", WR, PL, "WriteTagResponsePacket", w1, connected_reply(0xCD, 0, b""), {"tag": "T", "elements": 2, "value": V8, "data_type": "DINT", "service_status": 0}, True, None)
         response("write-response", "Write Tag reply, status 0x05", WR, PL, "WriteTagResponsePacket", w1, connected_reply(0xCD, 5, b""), {"tag": "T", "value": V8, "data_type": "DINT"}, False, "<status 5> - <ext@48>")
@@ -433,7 +494,7 @@ def _reg(prop, rid, groups, floor, doc):
 
 _reg("C01", "D1.12", {"read-request", "read-response", "multi-request", "multi-response"}, 10,
      "Read Tag / Multiple Service request frames and their replies, folded on witness packets: service 0x4C, path, element count; reply fields, value decoded from the reply data with the request's tag info and element count.")
-_reg("C02", "D2.11", {"write-request", "write-request-refusals", "write-response", "bit-write", "bit-write-refusals", "multi-request"}, 15,
+_reg("C02", "D2.11", {"write-request", "write-request-refusals", "write-response", "bit-write", "bit-write-refusals", "multi-request", "build-twice"}, 15,
      "Write Tag and Read-Modify-Write request frames folded on witness packets: service, path, type code (elementary: code; structure: A0 02 + handle), element count, data; or/and masks of the addressed bits only; refusals are RequestError.")
 _reg("C03", "D3.10", {"multi-response", "write-request-refusals", "bit-write-refusals", "read-response-errors"}, 10,
      "A failed member of a Multiple Service reply fails only its own response; a request that cannot be built is refused with RequestError (the error the per-request handlers of read/write catch); failed replies carry no value.")
@@ -441,7 +502,7 @@ _reg("C04", "D4.9", {"fragment-request", "fragment-response"}, 10,
      "Read/Write Tag Fragmented request frames (byte offset after the element count, continuation requests copy tag, path, element count and take the new offset / segment) and fragment replies (type prefix 2 bytes, 4 for structures; status 6 is success).")
 _reg("C09", "D9.9", {"multi-request", "generic-request"}, 4,
      "Request frames pass class / instance / attribute to the path encoder unchanged and in order; the Multiple Service Packet goes to the Message Router, instance 1.")
-_reg("C13", "D13.9", {"read-response-errors", "generic-response-errors", "write-response", "fragment-response"}, 10,
+_reg("C13", "D13.9", {"read-response-errors", "generic-response-errors", "write-response", "fragment-response", "cut-replies"}, 10,
      "A failed reply is falsy and its error names the encapsulation or general status with the extended status found at the reply's status offset (48 connected, 42 unconnected); a successful one has no error.")
 _reg("C14", "D14.8", {"generic-request", "generic-response", "generic-response-errors"}, 6,
      "generic_message packets: service, path, data (and route or Unconnected Send wrapper) in order in a connected / unconnected frame; the reply value is the raw data unless a type is given, and absent on failure.")
